@@ -8,7 +8,7 @@
    roots of the QAP polynomial cannot be found without the toxic waste (knowledge soundness in the
    AGM, discrete log), and the random-oracle reading of the commitment challenge. *)
 From Coq Require Import Field List.
-From GnarkV Require Import Base.Res Backend.Groth16 Codec.ProofShape.
+From GnarkV Require Import Base.Res Backend.Groth16 Backend.PedersenPok Codec.ProofShape.
 Import ListNotations.
 
 Section C01.
@@ -40,6 +40,18 @@ Proof. exact (g16_ar_determined F zero one add mul sub opp div inv Fth alpha bet
 Theorem C01_surplus_commitment_forgery : forall ar bs krs vx vx',
   accepts ar bs krs vx -> accepts ar bs krs (vx' + (vx - vx')).
 Proof. exact (g16_surplus_commitment_forgery F zero one add mul sub opp div inv Fth alpha beta gamma delta). Qed.
+(* the batched Pedersen knowledge proof binds commitment i to basis i only when Setup draws an
+   independent sigma per commitment (Backend/PedersenPok.v): the migration adversary — a multiple of a
+   basis element of commitment 0 moved into commitment 1, sum unchanged — is rejected exactly when the
+   two sigmas differ, and accepted when they are shared *)
+Theorem C01_pedersen_migration_rejected : forall sigma0 sigma1 r D0 D1 b k,
+  r <> zero -> k <> zero -> b <> zero -> sigma0 <> sigma1 ->
+  ~ pok_accepts F add mul sigma0 sigma1 r (D0 - k * b) (D1 + k * b) (sigma0 * D0 - k * (sigma0 * b)) (sigma1 * D1 + k * (sigma0 * b)).
+Proof. exact (pok_migration_rejected F zero one add mul sub opp div inv Fth). Qed.
+
+Theorem C01_pedersen_shared_sigma_forgeable : forall sigma r D0 D1 b k,
+  pok_accepts F add mul sigma sigma r (D0 - k * b) (D1 + k * b) (sigma * D0 - k * (sigma * b)) (sigma * D1 + k * (sigma * b)).
+Proof. exact (pok_migration_shared_sigma_accepted F zero one add mul sub opp div inv Fth). Qed.
 End C01.
 
 (* the repaired verifier rejects any proof whose number of commitments differs from the key's *)
@@ -52,3 +64,5 @@ Print Assumptions C01_replay_relation.
 Print Assumptions C01_krs_determined.
 Print Assumptions C01_ar_determined.
 Print Assumptions C01_commitment_count.
+Print Assumptions C01_pedersen_migration_rejected.
+Print Assumptions C01_pedersen_shared_sigma_forgeable.
